@@ -244,10 +244,13 @@ def english():
 
     rows.append({"word": ",", "instr": None, "marker": None, "expect": None, "desc": "a comma is never a number word (it ends the number in progress)"})
     rows.append({"word": "and", "instr": None, "marker": None, "expect": None, "desc": "the conjunction: a link word once the number has two digits, not a number word otherwise"})
+    rows.append({"word": "point", "instr": None, "marker": None, "expect": None, "desc": "the decimal separator is not a number word: refused, and not as a link word"})
 
     def row_stmt(r):
         if r["word"] == ",":
             return f"!en_model({W(',')}, o).ok && !(en_model({W(',')}, o).err is Incomplete)"
+        if r["word"] == "point":
+            return f"en_model({W('point')}, o) == err_res(o, Error::NaN), !{W('point')}.contains('-')"
         if r["word"] == "and":
             return f"en_model({W('and')}, o) == (if size_of(o) >= 2 {{ err_res(o, Error::Incomplete) }} else {{ err_res(o, Error::NaN) }}), !{W('and')}.contains('-')"
         return f"en_row({r['instr']}, {KIND[r['marker']]}, o, en_model({W(r['word'])}, o)), !{W(r['word'])}.contains('-')"
@@ -294,6 +297,7 @@ def english():
     for cw, ow, k, base in scales:
         d.append(f"pub proof fn lemma_en_scale_{cw}(o: DsView) ensures en_row(EnI::{k}, 0, o, en_model({W(cw)}, o)), !{W(cw)}.contains('-'), en_row(EnI::{k}, 1, o, en_model({W(ow)}, o)), !{W(ow)}.contains('-') {{ en_rows_{modof[cw]}::lemma_en_row_{wname(cw)}(o); en_rows_{modof[ow]}::lemma_en_row_{wname(ow)}(o); }}")
     d.append(f"pub proof fn lemma_en_and(o: DsView) ensures en_model({W('and')}, o) == (if size_of(o) >= 2 {{ err_res(o, Error::Incomplete) }} else {{ err_res(o, Error::NaN) }}), !{W('and')}.contains('-') {{ en_rows_{modof['and']}::lemma_en_row_and(o); }}")
+    d.append(f"pub proof fn lemma_en_point(o: DsView) ensures en_model({W('point')}, o) == err_res(o, Error::NaN), !{W('point')}.contains('-') {{ en_rows_{modof['point']}::lemma_en_row_point(o); }}")
     d.append(f"pub proof fn lemma_en_zero(o: DsView) ensures en_row(EnI::Zero, 0, o, en_model({W('zero')}, o)), !{W('zero')}.contains('-') {{ en_rows_{modof['zero']}::lemma_en_row_zero(o); }}")
     open(os.path.join(T, "en_dispatch.inc"), "w", encoding="utf-8").write("\n".join(d) + "\n")
     print(c + ":", len(arms), "arms,", len(rows), "rows,", len(allwords), "words")
